@@ -253,19 +253,7 @@ func checkC10(c *Ctx, r *Report) {
 
 	// validateParams: every non-context parameter reaches its kind check and the combination check
 	const vp = "(core/validators.ReceiverValidator).validateParams"
-	ruleEach(c, r, "C10.b", vp,
-		func(fi *FuncInfo) func(ast.Expr) bool {
-			return w.rangeOverField(fi, "core/metadata.ReceiverMeta.Params")
-		}, "receiver.Params",
-		func(fi *FuncInfo) func(ast.Node) bool {
-			return w.callPred(fi, "(core/validators.ReceiverValidator).validateParamsCombinations")
-		}, "validateParamsCombinations",
-		func(fi *FuncInfo) []skipSpec {
-			return []skipSpec{
-				{Cond: w.condCalls(fi, "(core/metadata.TypeUsageMeta).IsContext"), Pol: true, Desc: "context parameter"},
-				{Cond: w.nilTestOf(fi, "*definitions.ParamPassedIn"), Pol: true, Desc: "no passed-in annotation (reported by the link validator)"},
-			}
-		}, true, "every non-context parameter with a location is checked against the others (one body, no body+form)")
+	checkOneBodyPerRoute(c, r, "C10.b")
 	// every located parameter is type-checked: as a body or as a non-body parameter - there is
 	// no location for which neither check runs
 	ruleEach(c, r, "C10.b", vp,
@@ -281,7 +269,7 @@ func checkC10(c *Ctx, r *Report) {
 				{Cond: w.nilTestOf(fi, "*definitions.ParamPassedIn"), Pol: true, Desc: "no passed-in annotation (reported by the link validator)"},
 			}
 		}, true, "every non-context parameter with a location is checked by validateBodyParam or validateNonBodyParam")
-	for _, sub := range []string{"validateBodyParam", "validateNonBodyParam", "validateParamsCombinations"} {
+	for _, sub := range []string{"validateBodyParam", "validateNonBodyParam"} {
 		ruleResultReturned(c, r, "C10.b", vp, "(core/validators.ReceiverValidator)."+sub)
 	}
 
@@ -308,6 +296,67 @@ func checkC10(c *Ctx, r *Report) {
 	checkDiagnosticsAppendOnly(c, r, "C10.a")
 	// every element filter in these packages is a reviewed one
 	ruleSkipInventory(c, r, "C10.b", loadSkipTable(c.VerifDir), 5, "core/validators")
+}
+
+// checkExactMembership (shared with C14.b: kin-openapi's PathItem.SetOperation panics on a
+// method string that is not exactly one of its upper-case verbs, so a verb that validation
+// lets through in another spelling is a crash of the spec generator).
+func checkExactMembership(c *Ctx, r *Report, clause string) {
+	w := c.W
+	// membership is decided on the value as written: whatever is accepted is handed to the
+	// generators verbatim (switch arms, `.Methods("{{{HttpVerb}}}")`, ToUpperCamel), so a
+	// test on a normalised copy accepts spellings the generators do not know
+	for _, fnk := range []string{"definitions.IsValidRouteHttpVerb", "definitions.IsValidHttpVerb", "definitions.IsValidHttpStatusCode"} {
+		fi := need(c, r, clause, fnk)
+		if fi == nil {
+			continue
+		}
+		viol := ""
+		var sites []string
+		n := 0
+		allInstrs(fi.SSA, false, func(_ *ssa.Function, _ *ssa.BasicBlock, _ int, ins ssa.Instruction) {
+			lk, ok := ins.(*ssa.Lookup)
+			if !ok {
+				return
+			}
+			n++
+			sites = append(sites, w.pos(lk.Pos()))
+			if len(fi.SSA.Params) != 1 || stripTrivial(lk.Index) != ssa.Value(fi.SSA.Params[0]) {
+				viol = fmt.Sprintf("%s: %s looks up a transformed copy of its argument (%s): spellings that differ from the table's are accepted by validation but reach the spec/routes generators unchanged, where no arm or method exists for them", w.pos(lk.Pos()), fnk, sliceOf(lk.Index))
+			}
+		})
+		if n != 1 {
+			viol = fmt.Sprintf("expected one table lookup in %s, found %d", fnk, n)
+		}
+		r.add(clause, "fieldflow", fnk+":exact-membership", fnk+" tests the value exactly as it will be consumed", []string{fnk}, sites, viol)
+	}
+}
+
+// checkOneBodyPerRoute: both emitters store a body parameter with `operation.RequestBody = ...`
+// (the last one wins) and fold form fields into that same body, so "the @Body parameter becomes
+// the requestBody" needs at most one body, and no body beside a form, to get past validation:
+// every located parameter is checked against the ones before it and the verdict is reported.
+func checkOneBodyPerRoute(c *Ctx, r *Report, clause string) {
+	w := c.W
+	const vp = "(core/validators.ReceiverValidator).validateParams"
+	ruleEach(c, r, clause, vp,
+		func(fi *FuncInfo) func(ast.Expr) bool {
+			return w.rangeOverField(fi, "core/metadata.ReceiverMeta.Params")
+		}, "receiver.Params",
+		func(fi *FuncInfo) func(ast.Node) bool {
+			return w.callPred(fi, "(core/validators.ReceiverValidator).validateParamsCombinations")
+		}, "validateParamsCombinations",
+		func(fi *FuncInfo) []skipSpec {
+			return []skipSpec{
+				{Cond: w.condCalls(fi, "(core/metadata.TypeUsageMeta).IsContext"), Pol: true, Desc: "context parameter"},
+				{Cond: w.nilTestOf(fi, "*definitions.ParamPassedIn"), Pol: true, Desc: "no passed-in annotation (reported by the link validator)"},
+			}
+		}, true, "every non-context parameter with a location is checked against the others (one body, no body+form)")
+	ruleResultReturned(c, r, clause, vp, "(core/validators.ReceiverValidator).validateParamsCombinations")
+	ruleHelperShape(c, r, clause, helperShape{Fn: "(core/validators.ReceiverValidator).validateParamsCombinations",
+		AllowedCalls: []string{"core/validators/diagnostics.NewErrorDiagnostic"},
+		MustFields:   []string{"PassedIn"}, MustConsts: []string{"Body", "Form"},
+		Why:          "a second body, a body beside a form and a form beside a body are errors"})
 }
 
 // sliceReaches: `target` is in the backward slice of v.
@@ -596,33 +645,7 @@ func checkC10Tables(c *Ctx, r *Report) {
 		}
 		r.add("C10.c", "fieldflow", fi.Key+":table", "IsValidRouteHttpVerb is a lookup in routeSupportedHttpVerbs", []string{fi.Key}, []string{w.pos(fi.Decl.Pos())}, viol)
 	}
-	// membership is decided on the value as written: whatever is accepted is handed to the
-	// generators verbatim (switch arms, `.Methods("{{{HttpVerb}}}")`, ToUpperCamel), so a
-	// test on a normalised copy accepts spellings the generators do not know
-	for _, fnk := range []string{"definitions.IsValidRouteHttpVerb", "definitions.IsValidHttpVerb", "definitions.IsValidHttpStatusCode"} {
-		fi := need(c, r, "C10.c", fnk)
-		if fi == nil {
-			continue
-		}
-		viol := ""
-		var sites []string
-		n := 0
-		allInstrs(fi.SSA, false, func(_ *ssa.Function, _ *ssa.BasicBlock, _ int, ins ssa.Instruction) {
-			lk, ok := ins.(*ssa.Lookup)
-			if !ok {
-				return
-			}
-			n++
-			sites = append(sites, w.pos(lk.Pos()))
-			if len(fi.SSA.Params) != 1 || stripTrivial(lk.Index) != ssa.Value(fi.SSA.Params[0]) {
-				viol = fmt.Sprintf("%s: %s looks up a transformed copy of its argument (%s): spellings that differ from the table's are accepted by validation but reach the spec/routes generators unchanged, where no arm or method exists for them", w.pos(lk.Pos()), fnk, sliceOf(lk.Index))
-			}
-		})
-		if n != 1 {
-			viol = fmt.Sprintf("expected one table lookup in %s, found %d", fnk, n)
-		}
-		r.add("C10.c", "fieldflow", fnk+":exact-membership", fnk+" tests the value exactly as it will be consumed", []string{fnk}, sites, viol)
-	}
+	checkExactMembership(c, r, "C10.c")
 	// uniqueness of parameter references is keyed by the referenced parameter (the annotation's value)
 	const vuv = "(*core/validators.CommonValidator).validateUniqueValue"
 	if fi := need(c, r, "C10.d", vuv); fi != nil {
